@@ -4,4 +4,4 @@ From LC Require Import Common AstDefs GenDefs EmitDefs.
 Extraction "emit_model.ml" ty_of_name nat_to_string profile_C profile_Py prof
   analyse_math need_flags_list flags_bits all_helpers helper_name
   interface_code implementation_code info_sizes helpers_emitted declared_sigs defined_sigs nla_systems
-  state_info_table variable_info_table voi_info wf_indices_b is_valid.
+  state_info_table variable_info_table voi_info wf_indices_b is_valid method_body_code.
